@@ -5,7 +5,29 @@ from . import execfam as X
 TIMEOUTS = [0.0, 0.0, 0.001, 0.01, 0.05, 0.2, 1.0]
 
 
+def gen_aligned(rng, tier):
+    """all workers idle for exactly their time-out when the next submit arrives."""
+    workers = rng.choice([1, 1, 2])
+    timeout = rng.choice([0.01, 0.05, 0.2, 1.0])
+    main = [{"op": "create", "ex": "A", "kw": {"max_workers": workers, "timeout": timeout}}]
+    fid = 0
+    for _ in range(rng.randint(1, 4)):
+        for _ in range(rng.randint(1, workers + 1)):
+            main.append(submit_op("A", fid, dict(id=fid, kind="work", dur=rng.choice([0, 0, 0.01])), []))
+            fid += 1
+        main.append({"op": "wait_all"})
+        main.append({"op": "sleep", "d": timeout + rng.choice([0.0, 0.0, 0.0, -0.001, 0.001, 0.01])})
+    main.append(submit_op("A", fid, dict(id=fid, kind="work", dur=0), []))
+    main.append({"op": "wait_all"})
+    main.append({"op": "shutdown", "ex": "A", "wait": True})
+    kn = gen_knobs(rng, tier)
+    kn["J"] = rng.choice([0.0, 0.001, 0.05])
+    return dict(family="timeouts", knobs=kn, model=gen_model(rng), threads=[main], faults=[], hold_refs=True, end="aligned")
+
+
 def gen(rng, tier):
+    if rng.random() < 0.3:
+        return gen_aligned(rng, tier)
     mode = rng.choice(["plain", "plain", "reusable"])
     workers = rng.randint(1, 3)
     nthreads = rng.choice([1, 1, 2])
